@@ -326,7 +326,9 @@ Proof.
       rewrite (item_of_concrete ot (fst x) Hot) in H.
       replace (S (length acc)) with (length (acc ++ [Some (ot, fst x)])) in H by (rewrite app_length; cbn [length]; lia).
       replace (done ++ ot :: outs') with ((done ++ [ot]) ++ outs') in H by (rewrite <- app_assoc; reflexivity).
-      destruct (IH (done ++ [ot]) outs' _ (tys ++ [ot]) _ _ _ Hall' ltac:(rewrite !app_length; cbn [length]; lia) H)
+      assert (Hlen' : length (acc ++ [Some (ot, fst x)]) = length (done ++ [ot])).
+      { rewrite !app_length. cbn [length]. lia. }
+      destruct (IH (done ++ [ot]) outs' (acc ++ [Some (ot, fst x)]) (tys ++ [ot]) (snd x) items rest Hall' Hlen' H)
         as (tys' & Hl & Hlen2).
       exists tys'. cbn [tuple_loop]. rewrite Hk, Hx. cbn [bind].
       rewrite map_app in Hl. cbn [map val_of] in Hl.
@@ -335,7 +337,7 @@ Qed.
 
 (* No side condition beyond the two given is needed: a first token that is not a Tuple token (a TypeName in
    particular) makes the typed tuple fail, so the hypothesis excludes it. *)
-Theorem typed_tuple_is_func : forall f types cur ts items rest,
+Lemma typed_tuple_is_func_s : forall f types cur ts items rest,
   Forall (fun t => t <> TAny) types -> (length types <= 50)%nat ->
   typed_tuple_unm pf f o R types [] ts = Ok (items, rest) ->
   unm pf (S f) o R (TFunc types) cur ts =
@@ -357,15 +359,16 @@ Qed.
 Definition rec_any (rec : rec_t) : Prop :=
   forall ts x, rec TAny (GAny None) ts = Ok x -> exists d, fst x = GAny d.
 
+Ltac dif H := match type of H with (if ?c then _ else _) = _ => destruct c end.
+
 Lemma newstruct_loop_any_shape (rec : rec_t) : forall g fs vals ts x,
   newstruct_loop rec g fs vals ts = Ok x -> exists d, fst x = GAny d.
 Proof.
   induction g as [|g IH]; intros fs vals ts x H; [discriminate H|].
   cbn [newstruct_loop] in H. destruct ts as [|tk r]; [discriminate H|].
   destruct (kind tk =? KObjectEnd); [injection H as <-; eexists; reflexivity|].
-  apply bind_ok in H. destruct H as (nr & _ & H).
-  destruct (negb (is_exported_ident match fst nr with GStr s => s | _ => [] end)); [discriminate H|].
-  destruct (existsb _ fs); [discriminate H|].
+  apply bind_ok in H. destruct H as (nr & _ & H). cbv zeta in H.
+  dif H; [discriminate H|]. dif H; [discriminate H|].
   apply bind_ok in H. destruct H as (vr & _ & H).
   destruct (fst vr) as [| | | | | | | | | | |[[vt v]|]| |]; try discriminate H.
   eapply IH, H.
@@ -377,10 +380,9 @@ Proof.
   induction g as [|g IH]; intros m ts x H; [discriminate H|].
   cbn [genmap_loop] in H. destruct ts as [|tk r]; [discriminate H|].
   destruct (kind tk =? KMapEnd); [injection H as <-; eexists; reflexivity|].
-  apply bind_ok in H. destruct H as (kr & _ & H).
+  apply bind_ok in H. destruct H as (kr & _ & H). cbv zeta in H.
   destruct (to_comparable (fst kr)) as [| | | | | | | | | | |[[kt kv]|]| |]; try discriminate H.
-  destruct (negb (comparable_ty kt)); [discriminate H|].
-  match type of H with (if ?c then _ else _) = _ => destruct c; [discriminate H|] end.
+  dif H; [discriminate H|]. dif H; [discriminate H|].
   apply bind_ok in H. destruct H as (vr & _ & H). eapply IH, H.
 Qed.
 
@@ -449,7 +451,7 @@ Proof.
 Qed.
 
 (* No further side condition is needed. *)
-Theorem tuple_unm_is_any : forall f ts items rest,
+Lemma tuple_unm_is_any_s : forall f ts items rest,
   tuple_unm pf f o R [] ts = Ok (items, rest) -> (length items <= 50)%nat ->
   unm pf (S f) o R TAny (GAny None) ts =
     Ok (GAny (Some (TFunc (map (fun d => match d with Some (t, _) => t | None => TAny end) items),
@@ -464,6 +466,23 @@ Proof.
 Qed.
 
 End AgainstUnm.
+
+(* 4.  No side condition beyond the two given ones is needed: a first token that is not a Tuple token (a
+   TypeName in particular) makes the typed tuple fail, so the hypothesis excludes it. *)
+Theorem typed_tuple_is_func : forall pf f o R types cur ts items rest,
+  Forall (fun t => t <> TAny) types -> (length types <= 50)%nat ->
+  typed_tuple_unm pf f o R types [] ts = Ok (items, rest) ->
+  unm pf (S f) o R (TFunc types) cur ts =
+    Ok (GFunc (Some (map (fun d => match d with Some (_, v) => v | None => GAny None end) items)), rest).
+Proof. intros pf f o R types cur ts items rest. apply typed_tuple_is_func_s. Qed.
+
+(* 5.  No further side condition is needed. *)
+Theorem tuple_unm_is_any : forall pf f o R ts items rest,
+  tuple_unm pf f o R [] ts = Ok (items, rest) -> (length items <= 50)%nat ->
+  unm pf (S f) o R TAny (GAny None) ts =
+    Ok (GAny (Some (TFunc (map (fun d => match d with Some (t, _) => t | None => TAny end) items),
+                    GFunc (Some (map (fun d => match d with Some (_, v) => v | None => GAny None end) items)))), rest).
+Proof. intros pf f o R ts items rest. apply tuple_unm_is_any_s. Qed.
 
 (* ====================================================================================== *)
 (* 6.  Totality                                                                            *)
@@ -684,7 +703,7 @@ Example ex_is_func_thm :
   unm ex_pf 7 default_opts [] (TFunc ex_func_types) (GFunc None) ex_func_stream
   = Ok (GFunc (Some [GInt 5; GList false [GBool true]; GAny (Some (TString, GStr [120]))]), [T KNil VNone]).
 Proof.
-  apply (typed_tuple_is_func ex_pf default_opts [] 6 ex_func_types (GFunc None) ex_func_stream
+  apply (typed_tuple_is_func ex_pf 6 default_opts [] ex_func_types (GFunc None) ex_func_stream
            [Some (TInt WNat, GInt 5); Some (TSlice TBool, GList false [GBool true]);
             Some (TNamed [81] false [] TAny, GAny (Some (TString, GStr [120])))]).
   - repeat constructor; discriminate.
@@ -719,7 +738,7 @@ Example ex_is_any_thm :
   = Ok (GAny (Some (TFunc [TInt WNat; TAny; TSlice TAny],
                     GFunc (Some [GInt 5; GAny None; GList false [GAny (Some (TBool, GBool true))]]))), [T KNil VNone]).
 Proof.
-  apply (tuple_unm_is_any ex_pf default_opts [] 6 ex_any_stream
+  apply (tuple_unm_is_any ex_pf 6 default_opts [] ex_any_stream
            [Some (TInt WNat, GInt 5); None; Some (TSlice TAny, GList false [GAny (Some (TBool, GBool true))])]).
   - vm_compute. reflexivity.
   - cbn; lia.
